@@ -151,6 +151,7 @@ open SigModel.PromqlBin in
 def showVal : Val → String
   | .num q => showRat q
   | .nan => "nan"
+  | .inf n => if n then "-inf" else "inf"
   | .unmodelled => "unmodelled"
 
 open SigModel.PromqlBin in
